@@ -269,6 +269,7 @@ func slice(x, lo, hi, max value) value {
 	var Len, Cap int
 	switch x := x.(type) {
 	case string:
+		guardDec(x, "slicing")
 		Len = len(x)
 	case []value:
 		Len = len(x)
@@ -328,6 +329,23 @@ func lookup(instr *ssa.Lookup, x, idx value) value {
 func binop(op token.Token, t types.Type, x, y value) value {
 	if isSym(x) || isSym(y) {
 		return symBinop(op, t, x, y)
+	}
+	if xs, ok := x.(string); ok {
+		if ys, ok := y.(string); ok && (hasDec(xs) || hasDec(ys)) {
+			switch op {
+			case token.EQL:
+				return decEq(xs, ys)
+			case token.NEQ:
+				r := decEq(xs, ys)
+				if b, ok := r.(bool); ok {
+					return !b
+				}
+				return symUnop(token.NOT, r.(sym))
+			case token.ADD:
+			default:
+				unsupported("ordering of symbolic decimal strings")
+			}
+		}
 	}
 	if op == token.EQL || op == token.NEQ {
 		switch x.(type) {
@@ -1041,6 +1059,7 @@ func callBuiltin(caller *frame, fn *ssa.Builtin, args []value) value {
 	case "len":
 		switch x := args[0].(type) {
 		case string:
+			guardDec(x, "len")
 			return len(x)
 		case array:
 			return len(x)
@@ -1135,6 +1154,7 @@ func rangeIter(x value) iter {
 	case *hashmap:
 		return &hashmapIter{m: x}
 	case string:
+		guardDec(x, "range")
 		return &stringIter{Reader: strings.NewReader(x)}
 	}
 	panic(fmt.Sprintf("cannot range over %T", x))
